@@ -46,6 +46,8 @@ def r_ty(t):
         return f'(TSet {cbool(t[1])} {r_ty(t[2])})'
     if k == 'union':
         return f'(TUnion {clist([r_ty(a) for a in t[1]])})'
+    if k == 'tuple':
+        return f'(TTuple {clist([r_ty(a) for a in t[1]])})'
     if k == 'pybytes':
         return 'TBytes'                      # PlutusV1Script etc.: bytes subclasses restored with t(v)
     if k == 'unknown':
@@ -92,7 +94,11 @@ def r_class(c):
                 shape = 'bytes'
             else:
                 raise ValueError(f'T1: custom class {c["name"]} has no acceptance shape in the hand model')
-        return f'KOpaque {cstr(shape)}'
+        code = 'None'
+        for f in c.get('fields', []):
+            if f['name'] == '_CODE' and not f['init'] and f['default'][0] == 'const' and isinstance(f['default'][1], int):
+                code = f'(Some {cz(f["default"][1])})'
+        return f'KOpaque {cstr(shape)} {code}'
     k = c['kind']
     if k == 'cbytes':
         return f'KBytes {cn(c["min"])} {cn(c["max"])}'
